@@ -59,7 +59,8 @@ def expect_ok(clause: str, allowed: tuple = ()):
         raise
     except Exception as e:  # noqa: BLE001
         frame = innermost_repo_frame(e)
-        raise Violation(clause, f"{type(e).__name__}: {str(e)[:300]} @ {frame}") from e
+        # one bucket per (clause, exception type, innermost glotaran frame): one root cause does not hide another
+        raise Violation(f"{clause}:{type(e).__name__}@{frame}", f"{type(e).__name__}: {str(e)[:300]} @ {frame}") from e
 
 
 def innermost_repo_frame(e: BaseException) -> str:
@@ -267,7 +268,7 @@ def matches_known(entry: dict, failure: dict) -> bool:
         return False
     if entry.get("sub") not in (None, failure["sub"]):
         return False
-    if failure["clause"] not in entry.get("clauses", []):
+    if not any(failure["clause"] == c or failure["clause"].startswith(c + ":") for c in entry.get("clauses", [])):
         return False
     pred = entry.get("predicate")
     if pred:
